@@ -347,7 +347,268 @@ theorem conv_final_ok (hconv : converged (cache1Of s1 j new) s1.prov = true) (c 
   rw [this] at h3
   exact le_antisymm h4 h3
 
+include hI hst hev h1 h2 in
+/-- the outermost head converged: every memo of the iteration is finalised. -/
+theorem complete_converged (hconv : converged (cache1Of s1 j new) s1.prov = true) :
+    Inv P env (stConv s1 j new) ∧
+    (∀ c w, s1.final.lookup c = some w → (stConv s1 j new).final.lookup c = some w) ∧
+    Avail (stConv s1 j new) j new := by
+  have hjm : j ∈ s1.stack := by rw [hst]; exact List.mem_cons_self
+  obtain ⟨hjc, hjf⟩ := hI.stackFresh j hjm
+  have hnd := hI.nodup
+  rw [hst] at hnd
+  obtain ⟨hjr, hndr⟩ := List.nodup_cons.mp hnd
+  have htail : s1.stack.tail = rest := by rw [hst]; rfl
+  have hd := avail_conv P env s1 j rest new hI hst hconv
+  have hok := conv_final_ok P env s1 j rest v new hI hst hev h1 h2 hconv
+  refine ⟨?_, fun c w h => hd c w (Or.inl h), Or.inl ?_⟩
+  · refine ⟨?_, ?_, ?_, ?_, hok, ?_, ?_, ?_, ?_⟩
+    · show s1.stack.tail.Nodup
+      rw [htail]; exact hndr
+    · intro x hx
+      have hx' : x ∈ rest := by rw [← htail]; exact hx
+      have hxj : x ≠ j := by intro e; subst e; exact hjr hx'
+      have hxm : x ∈ s1.stack := by rw [hst]; exact List.mem_cons_of_mem _ hx'
+      obtain ⟨hxc, hxf⟩ := hI.stackFresh x hxm
+      refine ⟨rfl, ?_⟩
+      rw [stConv_final, cv1_ne s1 j new hxj]
+      simp [cval, hxc, hxf]
+    · intro x hx; exact absurd rfl hx
+    · intro _; exact ⟨rfl, rfl⟩
+    · intro x w hw c hc
+      rw [stConv_final] at hw
+      cases hcx : cv1 s1 j new x with
+      | some wx =>
+        obtain ⟨v0, hv0, _⟩ := cv1_just P env s1 j v new hI hev h1 x wx hcx
+        obtain ⟨w', hw'⟩ := EvalRel.answered hv0 c hc
+        rw [hd c w' hw']; rfl
+      | none =>
+        rw [hcx] at hw
+        have hw' : s1.final.lookup x = some w := hw
+        have := hI.finalClosed x w hw' c hc
+        cases hfc : s1.final.lookup c with
+        | none => rw [hfc] at this; cases this
+        | some wc => rw [hd c wc (Or.inl hfc)]; rfl
+    · intro c w hw; cases hw
+    · intro c w hw; simp [cval, stConv] at hw
+    · intro c w hw; simp [cval, stConv] at hw
+  · rw [stConv_final, cv1_self]; rfl
+
+include hI hst h2 in
+/-- the outermost head did not converge: the state in which it iterates again is fine. -/
+theorem iterate_inv (hself : (s1.prov.lookup j).isSome = true) :
+    Inv P env (stIter s1 j new) := by
+  have hjm : j ∈ s1.stack := by rw [hst]; exact List.mem_cons_self
+  have hmem : ∀ c w, (c, w) ∈ updateProv (cache1Of s1 j new) s1.prov →
+      cv1 s1 j new c = some w := by
+    intro c w hm
+    unfold updateProv at hm
+    rw [List.mem_filterMap] at hm
+    obtain ⟨p, _, hp⟩ := hm
+    cases hl : (cache1Of s1 j new).lookup p.1 with
+    | none => rw [hl] at hp; cases hp
+    | some e =>
+      rw [hl] at hp
+      simp only [Option.map_some, Option.some.injEq, Prod.mk.injEq] at hp
+      obtain ⟨e1, e2⟩ := hp
+      subst e1; subst e2
+      simp [cv1, hl]
+  refine ⟨hI.nodup, ?_, ?_, ?_, hI.finalOk, hI.finalClosed, ?_, ?_, ?_⟩
+  · intro x hx
+    exact ⟨rfl, (hI.stackFresh x hx).2⟩
+  · intro x hx; exact absurd rfl hx
+  · intro hno
+    exfalso; apply hno
+    refine ⟨j, hjm, ?_⟩
+    cases hl : s1.prov.lookup j with
+    | none => rw [hl] at hself; cases hself
+    | some last =>
+      have : (j, new) ∈ updateProv (cache1Of s1 j new) s1.prov := by
+        unfold updateProv
+        rw [List.mem_filterMap]
+        refine ⟨(j, last), lookup_mem hl, ?_⟩
+        simp [cache1Of, lookup_cons_self]
+      exact lookup_isSome_of_mem this
+  · intro c w hw
+    have hw' : (updateProv (cache1Of s1 j new) s1.prov).lookup c = some w := hw
+    exact cv1_le P env s1 j new hI h2 c w (hmem c w (lookup_mem hw'))
+  · intro c w hw; simp [cval, stIter] at hw
+  · intro c w hw; simp [cval, stIter] at hw
+
 end conv
+
+theorem not_headOn_of_not_below {s0 s1 : St} {j : Nat} (hE : Ext s0 s1)
+    (hst : s1.stack = j :: s0.stack) (hb : ¬ s1.stack.tail.any (isHead s1.prov) = true) :
+    ¬ HeadOn s0 := by
+  intro ⟨k, hk, hp⟩
+  apply hb
+  rw [below_iff]
+  exact ⟨k, by rw [hst]; exact hk, isHead_mono hE hp⟩
+
+theorem ext_of_empty {s0 s' : St} (hp : s'.poisoned = s0.poisoned)
+    (hf : ∀ c w, s0.final.lookup c = some w → s'.final.lookup c = some w)
+    (hc : s0.cache = []) (hpr : s0.prov = []) : Ext s0 s' := by
+  refine ⟨hp, hf, ?_, ?_⟩
+  · intro c w hw; rw [hpr] at hw; cases hw
+  · intro c w hw; simp [cval, hc] at hw
+
+/-- the head loop (`execute_maybe_iterate`) preserves the invariant. -/
+theorem loop_spec (hNF : NoFallback P) {read : Nat → St → Res Fetched}
+    (hR : ReadSpec P env read) (j : Nat) (s0 : St)
+    (hs0 : ¬ HeadOn s0 → s0.cache = [] ∧ s0.prov = []) :
+    ∀ (fuel stamp : Nat) (s : St) (v : Nat) (hs : List Nat) (s' : St),
+      Inv P env s → s.stack = j :: s0.stack → Ext s0 s →
+      executeMaybeIterate P env read j fuel stamp s = .ok (v, hs, s') →
+      Inv P env s' ∧ s'.stack = s0.stack ∧ Ext s0 s' ∧ Avail s' j v := by
+  intro fuel
+  induction fuel with
+  | zero => intro stamp s v hs s' _ _ _ h; simp [executeMaybeIterate] at h
+  | succ fuel ih =>
+    intro stamp s v hs s' hI hst hE0 h
+    unfold executeMaybeIterate at h
+    cases hev : evalM env read (P.node j).body s with
+    | error e => rw [hev] at h; cases h
+    | ok r =>
+      obtain ⟨v1, hs1, s1⟩ := r
+      rw [hev] at h
+      simp only at h
+      obtain ⟨hI1, hst1, hE1, hrel⟩ := evalM_spec P env hR _ s v1 hs1 s1 hI hev
+      have hst1' : s1.stack = j :: s0.stack := hst1.trans hst
+      have htail : s1.stack.tail = s0.stack := by rw [hst1']; rfl
+      have hE01 : Ext s0 s1 := hE0.trans hE1
+      have hv1 : le v1 (lfp P env j) := by
+        rw [← lfp_step]
+        exact EvalRel.upper (fun c w hw => hI1.avail_le P env hw) hrel
+      cases hl : s1.prov.lookup j with
+      | none =>
+        rw [hl] at h
+        simp only at h
+        split at h
+        · rename_i hb
+          have hvv : (if (hs1.filter (fun k => k != j)).isEmpty = true then v1
+              else participantValue P j v1) = v1 := by
+            split
+            · rfl
+            · exact participantValue_id hNF j v1
+          rw [hvv] at h
+          injection h with h; injection h with e1 h; injection h with e2 e3
+          subst e1; subst e3
+          obtain ⟨hI', hE', hA'⟩ := complete_cached P env s1 j s0.stack v1 v1
+            (hs1.filter (fun k => k != j)) hI1 hst1' hb hrel (le_refl _) hv1
+          exact ⟨hI', htail, hE01.trans hE', hA'⟩
+        · rename_i hb
+          injection h with h; injection h with e1 h; injection h with e2 e3
+          subst e1; subst e3
+          obtain ⟨hI', hE', hA'⟩ := complete_final P env s1 j s0.stack v1 hI1 hst1'
+            (by simpa using hb) hl hrel
+          exact ⟨hI', htail, hE01.trans hE', hA'⟩
+      | some last =>
+        rw [hl] at h
+        simp only at h
+        have hlast : le last (lfp P env j) := hI1.provLe j last hl
+        obtain ⟨hb1, hb2⟩ := cycleFn_bounds hNF j last v1
+        have hnew : le (cycleFn P j last v1) (lfp P env j) := hb2 _ hv1 hlast
+        split at h
+        · rename_i hb
+          injection h with h; injection h with e1 h; injection h with e2 e3
+          subst e1; subst e3
+          obtain ⟨hI', hE', hA'⟩ := complete_cached P env s1 j s0.stack v1 (cycleFn P j last v1)
+            (hs1.filter (fun k => k != j)) hI1 hst1' hb hrel hb1 hnew
+          exact ⟨hI', htail, hE01.trans hE', hA'⟩
+        · rename_i hb
+          have hno : ¬ HeadOn s0 := not_headOn_of_not_below hE01 hst1' hb
+          obtain ⟨hc0, hp0⟩ := hs0 hno
+          split at h
+          · rename_i hconv
+            injection h with h; injection h with e1 h; injection h with e2 e3
+            subst e1; subst e3
+            obtain ⟨hI', hF', hA'⟩ := complete_converged P env s1 j s0.stack v1
+              (cycleFn P j last v1) hI1 hst1' hrel hb1 hnew hconv
+            refine ⟨hI', htail, ?_, hA'⟩
+            exact ext_of_empty hE01.poisoned (fun c w hw => hF' c w (hE01.final c w hw)) hc0 hp0
+          · rename_i hconv
+            cases hinc : SalsaVerif.Gen.Stamp.IterationStamp.increment_iteration stamp with
+            | none => rw [hinc] at h; cases h
+            | some stamp' =>
+              rw [hinc] at h
+              simp only at h
+              have hI2 : Inv P env (stIter s1 j (cycleFn P j last v1)) :=
+                iterate_inv P env s1 j s0.stack (cycleFn P j last v1) hI1 hst1' hnew
+                  (by rw [hl]; rfl)
+              have hE2 : Ext s0 (stIter s1 j (cycleFn P j last v1)) :=
+                ext_of_empty hE01.poisoned (fun c w hw => hE01.final c w hw) hc0 hp0
+              exact ih stamp' _ v hs s' hI2 hst1' hE2 h
+
+theorem inv_push {s : St} {j : Nat} (hI : Inv P env s) (hj : j ∉ s.stack)
+    (hf : s.final.lookup j = none) (hc : s.cache.lookup j = none) :
+    Inv P env { s with stack := j :: s.stack } := by
+  refine ⟨List.nodup_cons.mpr ⟨hj, hI.nodup⟩, ?_, hI.cacheNotFinal, ?_, hI.finalOk,
+    hI.finalClosed, hI.provLe, hI.cacheLe, hI.just⟩
+  · intro x hx
+    cases hx with
+    | head => exact ⟨hc, hf⟩
+    | tail _ hx => exact hI.stackFresh x hx
+  · intro hno
+    apply hI.empty
+    intro ⟨k, hk, hp⟩
+    exact hno ⟨k, List.mem_cons_of_mem _ hk, hp⟩
+
+theorem execute_spec (hNF : NoFallback P) : ∀ d, ExecSpec P env (execute P env d) := by
+  intro d
+  induction d with
+  | zero => intro j s v hs s' _ _ _ _ h; simp [execute] at h
+  | succ d ih =>
+    intro j s v hs s' hI hj hf hc h
+    unfold execute at h
+    exact loop_spec P env hNF (fetch_spec P env hNF ih) j s hI.empty loopFuel _ _ v hs s'
+      (inv_push P env hI hj hf hc) rfl ⟨rfl, fun _ _ h => h, fun _ _ h => h, fun _ _ h => h⟩ h
+
+/-- a database between requests: every memo is the least fixpoint, and the memoised set is
+    closed under callees. -/
+structure DbOk (final : List (Nat × Nat)) : Prop where
+  ok : ∀ c v, final.lookup c = some v → v = lfp P env c
+  closed : ∀ x v, final.lookup x = some v →
+    ∀ c ∈ callees env (P.node x).body, (final.lookup c).isSome = true
+
+theorem inv_init {final : List (Nat × Nat)} (h : DbOk P env final) (poisoned : List Nat) :
+    Inv P env (St.init final poisoned) := by
+  refine ⟨List.nodup_nil, ?_, ?_, ?_, h.ok, h.closed, ?_, ?_, ?_⟩
+  · intro x hx; cases hx
+  · intro x hx; exact absurd rfl hx
+  · intro _; exact ⟨rfl, rfl⟩
+  · intro c v hv; cases hv
+  · intro c v hv; simp [cval, St.init] at hv
+  · intro c v hv; simp [cval, St.init] at hv
+
+/-- soundness of a top-level request. -/
+theorem eval_sound (hNF : NoFallback P) {final : List (Nat × Nat)} (hdb : DbOk P env final)
+    (poisoned : List Nat) (j v : Nat) (s : St)
+    (h : eval P env final poisoned j = .ok (v, s)) :
+    v = lfp P env j ∧ s.final.lookup j = some v ∧ DbOk P env s.final ∧
+    s.stack = [] ∧ s.prov = [] ∧ s.cache = [] ∧ s.poisoned = poisoned ∧
+    (∀ c w, final.lookup c = some w → s.final.lookup c = some w) := by
+  unfold eval at h
+  cases hf : fetch P (execute P env (P.n + 1)) j (St.init final poisoned) with
+  | error e => rw [hf] at h; cases h
+  | ok r =>
+    obtain ⟨v1, hs1, s1⟩ := r
+    rw [hf] at h
+    injection h with h; injection h with e1 e2
+    subst e1; subst e2
+    obtain ⟨hI, hst, hE, hA⟩ :=
+      fetch_spec P env hNF (execute_spec P env hNF (P.n + 1)) j _ v1 hs1 s1
+        (inv_init P env hdb poisoned) hf
+    have hst' : s1.stack = [] := hst
+    have hno : ¬ HeadOn s1 := by
+      intro ⟨k, hk, _⟩; rw [hst'] at hk; cases hk
+    obtain ⟨hc0, hp0⟩ := hI.empty hno
+    have hfin : s1.final.lookup j = some v1 := by
+      rcases hA with hA | hA | hA
+      · exact hA
+      · rw [hp0] at hA; cases hA
+      · simp [cval, hc0] at hA
+    exact ⟨hI.finalOk j v1 hfin, hfin, ⟨hI.finalOk, hI.finalClosed⟩, hst', hp0, hc0,
+      hE.poisoned, hE.final⟩
 
 end
 
